@@ -16,5 +16,6 @@ import (
 	_ "verifharness/mon/c16"
 	_ "verifharness/mon/c17"
 	_ "verifharness/mon/c18"
+	_ "verifharness/mon/c19"
 	_ "verifharness/mon/c20"
 )
